@@ -169,6 +169,7 @@ func GenConfig(t *rapid.T, tier string, o GenOpts) Config {
 		Val:       rapid.SampledFrom(vals).Draw(t, "val"),
 		Cache:     rapid.SampledFrom(caches).Draw(t, "cache"),
 		Marshaler: rapid.SampledFrom(marsh).Draw(t, "marshaler"),
+		Extra:     true,
 	}
 	switch rapid.IntRange(0, 7).Draw(t, "cmp") {
 	case 0:
